@@ -388,6 +388,12 @@ func c02Registration(r *core.Run, idx int, rng *rand.Rand) {
 			d2.ACS[0].Index, d2.ACS[1].Index = "5", "3"
 		}
 		d.ACS = d2.ACS
+		if version > 0 && rng.Intn(2) == 0 {
+			// the storage refreshes its long-lived object in place instead of building a new one
+			if err := e.W.ReplaceMetadataInPlace(d2.EntityID, d2.XML()); err == nil {
+				return
+			} // (not registered at the moment: registered anew below)
+		}
 		mustRegister(e.W, &d2, "appA")
 	}
 	reg()
